@@ -203,7 +203,11 @@ impl Encoder<Message<(Response<()>, BodySize)>> for Codec {
             }
 
             Message::Chunk(Some(bytes)) => {
-                self.encoder.encode_chunk(bytes.as_ref(), dst)?;
+                // the end of the body is `Chunk(None)`; an empty chunk from a body must not be
+                // encoded, since a zero-length chunk is the chunked-encoding terminator
+                if !bytes.is_empty() {
+                    self.encoder.encode_chunk(bytes.as_ref(), dst)?;
+                }
             }
 
             Message::Chunk(None) => {
